@@ -33,23 +33,24 @@ EVK = ['Delegated', 'Undelegated', 'Redelegated', 'Withdrew', 'Voted', 'VotedWei
 
 
 class Names:
-    """every byte string of a case file goes into ONE pool definition (hex text decoded inside Coq by [hx]) and is
-    referred to by index: string literals inside record terms elaborate ~50x slower than in a flat list"""
+    """byte strings that occur often (addresses, topics, validator strings) are defined once per file.  Measured on this
+    image: Coq ingests byte-list literals at ~20 KB/s per core (string / hex-number notations are slower), which is what
+    bounds the shard sizes below."""
 
     def __init__(self):
         self.m = {}
 
     def b(self, hexstr):
-        hexstr = hexstr.lower()
-        if len(hexstr) == 0:
-            return '[]'
+        raw = bytes.fromhex(hexstr)
+        if len(raw) not in (20, 32) and len(raw) < 40:
+            return vlib.coq_literal_bytes(raw)
         if hexstr not in self.m:
-            self.m[hexstr] = len(self.m)
-        return '(pb %d)' % self.m[hexstr]
+            self.m[hexstr] = 'b%d' % len(self.m)
+        return self.m[hexstr]
 
     def defs(self):
-        return ('Definition pool : list bytes := map hx [%s].\nDefinition pb (i : nat) : bytes := nth i pool [].\n'
-                % ';'.join('"%s"%%string' % h for h in self.m))
+        return ''.join('Definition %s : bytes := %s.\n' % (n, vlib.coq_literal_bytes(bytes.fromhex(h)))
+                       for h, n in self.m.items())
 
 
 def nat(n):
